@@ -27,6 +27,11 @@ func injectFailures(r *Rng, s *gSchema, g *gGraph, d *gDoc) string {
 		}
 		if r.Chance(50) {
 			fr.val = &gDVal{kind: "nil"}
+			if r.Chance(40) {
+				// the failing resolver hands back a nil that has a Go type (a nil map, as code that builds its
+				// answer in a map variable does): still a null
+				fr.val = &gDVal{kind: "tnilmap"}
+			}
 		} else if fr.val.kind != "nil" {
 			withValue = true
 		}
